@@ -9,13 +9,7 @@ EXTENDS TracePure
 T == PT
 
 HNum(h) == PHNum(h)
-ParamTable == [n \in DOMAIN T.params |->
-                 LET r == T.params[n]
-                     g == GroupTable[r.grp]
-                 IN [grp |-> g,
-                     M |-> GArbElem(g, HexToBytes(r.M)),
-                     N |-> GArbElem(g, HexToBytes(r.N)),
-                     S |-> GArbElem(g, HexToBytes(r.S))]]
+ParamTable == ParamTableP
 
 (* entropy log of an event as Sampler expects it                             *)
 EntLog(ev) == [i \in 1..Len(ev.ent) |-> [req |-> ev.ent[i].req, got |-> HexToBytes(ev.ent[i].got)]]
@@ -46,6 +40,7 @@ BlobBytes(f) == [k \in DOMAIN f |-> IF k = "side" THEN StrToBytes(f[k]) ELSE Hex
 VNew(st, ev) ==
   IF ev.inst \in DOMAIN st THEN Bad("harness: instance id reused", "", st)
   ELSE LET s == NewInst(ev.cls, ParamTable[ev.ps], HexToBytes(ev.pw), HexToBytes(ev.idA), HexToBytes(ev.idB))
+                  @@ [lin |-> ev.inst]            \* lineage: a constructor call starts a new one
            st2 == Put(st, ev.inst, s)
        IN IF ~NoEntropy(ev) THEN Bad("C11: the constructor drew entropy", "", st2)
           ELSE Good(st2)
@@ -95,9 +90,16 @@ VSerialize(st, ev) ==
 
 VRestore(st, ev) ==
   IF ev.inst \in DOMAIN st THEN Bad("harness: instance id reused", "", st)
-  ELSE LET e == RestoreOutcome(ev.cls, ParamTable[ev.ps], BlobBytes(ev.blob))
+  ELSE LET bb == BlobBytes(ev.blob)
+           e == RestoreOutcome(ev.cls, ParamTable[ev.ps], bb)
            o == Obs(ev.out)
-           st2 == IF e.t = "inst" THEN Put(st, ev.inst, e.v) ELSE st
+           \* a revived instance continues the lineage of the instance whose state it was given
+           src == {k \in DOMAIN st : st[k].hasx /\ <<SideByte(st[k].cls)>> = bb.side /\ st[k].pw = bb.password
+                                      /\ GScalarEnc(st[k].ps.grp, st[k].x).v = bb.xy_scalar
+                                      /\ (IF st[k].cls = "S" THEN "idS" \in DOMAIN bb /\ st[k].idA = bb.idS
+                                          ELSE "idA" \in DOMAIN bb /\ st[k].idA = bb.idA /\ st[k].idB = bb.idB)}
+           lin == IF src = {} THEN ev.inst ELSE st[CHOOSE k \in src : TRUE].lin
+           st2 == IF e.t = "inst" THEN Put(st, ev.inst, e.v @@ [lin |-> lin]) ELSE st
        IN IF ~NoEntropy(ev) THEN Bad("C11: from_serialized() drew entropy", "", st2)
           ELSE IF e.t = "inst"
                THEN IF o.t # "inst" THEN Bad("C08/C10: from_serialized() refused state in the released format", "inst", st2)
@@ -127,4 +129,41 @@ EventVerdict(st, ev) ==
     [] ev.op = "restore"   -> VRestore(st, ev)
     [] ev.op = "consts"    -> VConsts(st, ev)
     [] OTHER               -> LET r == PureVerdict(ev) IN [ok |-> r.ok, why |-> r.why, exp |-> r.exp, st |-> st]
+(* ---- C02 on implementation traces: whenever finish() returns a key, compare  *)
+(* it with the keys the other instances of the trace returned                  *)
+PeerCls(c1, c2) == (c1 = "A" /\ c2 = "B") \/ (c1 = "B" /\ c2 = "A") \/ (c1 = "S" /\ c2 = "S")
+SameEnd(s, t) == s.lin = t.lin          \* an instance and its revived copies are one end
+Sent(s) == <<SideByte(s.cls)>> \o s.out
+UsedAgree(s, t) == /\ s.ps.grp = t.ps.grp
+                   /\ IF s.cls = "S" THEN s.ps.S = t.ps.S ELSE (s.ps.M = t.ps.M /\ s.ps.N = t.ps.N)
+DegenerateScalars(s, t) ==
+  LET q == GOrder(s.ps.grp)
+  IN \/ NIsZero(GPwScalar(s.ps.grp, s.pw)) \/ NIsZero(NMod(s.x, q)) \/ NIsZero(NMod(t.x, q))
+     \/ (s.cls = "S" /\ NIsZero(NMod(NAdd(s.x, t.x), q)))
+(* tx: instance |-> [key, inb] of the finish() that returned a key              *)
+KeyCheck(st, tx, i, key, inb) ==
+  LET s == st[i]
+      clash == {j \in DOMAIN tx : j # i /\ tx[j].key = key /\ PeerCls(s.cls, st[j].cls) /\ ~SameEnd(s, st[j])}
+      bad == {j \in clash : ~( /\ s.pw = st[j].pw /\ s.idA = st[j].idA /\ s.idB = st[j].idB
+                               /\ inb = Sent(st[j]) /\ tx[j].inb = Sent(s) /\ UsedAgree(s, st[j]) )}
+  IN IF bad = {} THEN "ok"
+     ELSE LET j == CHOOSE j \in bad : TRUE
+          IN IF s.pw = st[j].pw /\ s.idA = st[j].idA /\ s.idB = st[j].idB /\ inb = Sent(st[j]) /\ tx[j].inb = Sent(s)
+                /\ s.ps.grp.kind = st[j].ps.grp.kind /\ GOrder(s.ps.grp) = GOrder(st[j].ps.grp) /\ DegenerateScalars(s, st[j])
+             THEN "F8: ends whose parameters differ only in a blinding element or the generator agree on a key because a secret or password scalar is degenerate (0, or x+y = 0 for Symmetric)"
+             ELSE IF s.cls = "S" /\ st[j].cls = "S" /\ s.out = st[j].out /\ inb = tx[j].inb /\ s.pw = st[j].pw /\ s.idA = st[j].idA
+                     /\ UsedAgree(s, st[j])
+             THEN "F9: two Symmetric ends that sent the same element (same password and secret scalar) were handed the same substituted message and agree on a key"
+             ELSE "C02: two ends obtained the same key although their views (password, identities, messages as sent, parameters) differ: " \o i \o " and " \o j
+
+EventVerdict2(st, tx, ev) ==
+  LET r == EventVerdict(st, ev)
+  IN IF ev.op = "finish" /\ ev.out.t = "key" /\ ev.inst \in DOMAIN st
+     THEN LET key == HexToBytes(ev.out.v)
+              inb == HexToBytes(ev.arg)
+              kc  == KeyCheck(st, tx, ev.inst, key, inb)
+              tx2 == (ev.inst :> [key |-> key, inb |-> inb]) @@ tx
+          IN IF r.ok /\ kc # "ok" THEN [ok |-> FALSE, why |-> kc, exp |-> "", st |-> r.st, tx |-> tx2]
+             ELSE [ok |-> r.ok, why |-> r.why, exp |-> r.exp, st |-> r.st, tx |-> tx2]
+     ELSE [ok |-> r.ok, why |-> r.why, exp |-> r.exp, st |-> r.st, tx |-> tx]
 =============================================================================
